@@ -31,7 +31,11 @@ def supported(c):
             if k in n and _pol(n[k]) is None:
                 return False
     for e in c["edges"]:
-        if e["type"] not in ("buffer", "fleet") or isinstance(e.get("delay", 0), list):
+        if e["type"] not in ("buffer", "fleet", "slotted") or isinstance(e.get("delay", 0), list):
+            return False
+        # the slotted conveyor is a StoreCore kind; its can_put() raises (known finding of C20), so only blocking
+        # nodes may feed it in the model
+        if e["type"] == "slotted" and not c["nodes"][e["src"]].get("blocking", True):
             return False
     return True
 
@@ -78,10 +82,14 @@ def to_model(c):
     edges = []
     for e in c["edges"]:
         fleet = e["type"] == "fleet"
+        if e["type"] == "slotted":
+            edges.append({"kind": "slotted", "mode": "FIFO", "cap": e.get("cap", 3), "delay": 0, "fdelay": 1, "transit": 0,
+                          "trig": e.get("slot", 4)})
+            continue
         edges.append({"kind": "fleet" if fleet else "buffer", "mode": e.get("mode", "FIFO"), "cap": e.get("cap", 1),
                       "delay": 0 if fleet else e.get("delay", 0), "fdelay": e.get("delay", 4) if fleet else 1,
-                      "transit": e.get("transit", 0) if fleet else 0})
-    return {"nodes": nodes, "edges": edges, "drains": bool(c.get("drains")) and not any(x["kind"] == "fleet" for x in edges)}
+                      "transit": e.get("transit", 0) if fleet else 0, "trig": 0})
+    return {"nodes": nodes, "edges": edges, "drains": bool(c.get("drains")) and not any(x["kind"] in ("fleet", "slotted") for x in edges)}
 
 
 def _one(args):
